@@ -1,5 +1,6 @@
 import Oas3Model.Model.Flags
 import Oas3Model.Gen.FlagSites
+import Oas3Model.Proofs.Cache
 namespace Oas3.Props.C18
 open Oas3.Flags
 
@@ -93,5 +94,34 @@ theorem each_flag_decides_something :
     (justifiedReads.any fun p => p.2 == .helperMethods) ∧ (justifiedReads.any fun p => p.2 == .builderDerive) ∧
     (justifiedReads.any fun p => p.2 == .builderAttrs) ∧ (justifiedReads.any fun p => p.2 == .builderCtor) ∧
     (justifiedReads.any fun p => p.2 == .headerConsts) := by decide +kernel
+
+/-! ## why `--no-helpers` can rename a type (finding F18-2), on the cache model of C13 (`Model/Cache.lean`)
+
+An inline schema that has a PRE-COMPUTED name gets it whoever asks first; one that has none (inline `items`, union variants,
+`additionalProperties`) is named after the FIRST requester. Helper constructors make the generator convert the members of a
+union early, so with and without `--no-helpers` the first requester of a shared inline item type differs. -/
+section CacheOrder
+open Oas3.Cache
+
+private def fns : NameFns := { mkName := id, uniq := fun n used => if used.contains n then n ++ ['2'] else n }
+private def rq (base : String) : Req := { c := "K".toList, relaxed := false, relaxedAnyOf := false, base := base.toList, forced := none, ekCheck := none, ek := none }
+
+/-- a key without a pre-computed name is named by its first requester: the two conversion orders give different names -/
+theorem cex_first_requester_names_the_type :
+    ((rq "BetaEntry").run fns ((rq "ZedThing").run fns {}).1).2 = "ZedThing".toList ∧
+    ((rq "ZedThing").run fns ((rq "BetaEntry").run fns {}).1).2 = "BetaEntry".toList := by decide +kernel
+
+/-- with a pre-computed name (and no forced one) the requester's own base plays no part: for EVERY state in which the key is
+not yet registered, every pair of requests for it gets the same name -/
+theorem precomputed_name_ignores_requester (f : NameFns) (st : St) (c : Key) (p : Name) (b₁ b₂ : List Char)
+    (hs : lookupA c st.s2t = none) (hp : lookupA c st.pre = some p) :
+    (resolveInline f st c false false b₁ none none none).2 = (resolveInline f st c false false b₂ none none none).2 := by
+  simp [resolveInline, hs, hp, St.prepare, Option.bind]
+
+/-- … and once a key is registered, every later request gets the registered name, whatever it would have called the type -/
+theorem registered_name_is_kept (f : NameFns) (st : St) (q : Req) (n : Name) (h : lookupA q.c st.s2t = some n) :
+    (q.run f st).2 = n := by
+  simp [Req.run, resolveInline, h]
+end CacheOrder
 
 end Oas3.Props.C18
